@@ -47,6 +47,8 @@ use tracing::{debug, info, instrument, trace, warn};
 
 mod connection_control;
 mod header_ex;
+#[cfg(eigerco_lumina_verif)]
+pub(crate) use self::header_ex::verif_hooks as hx_verif_hooks;
 pub(crate) mod header_session;
 mod shrex;
 pub(crate) mod shwap;
